@@ -60,6 +60,13 @@ func ClientServer() gen.Options {
 	}}}
 }
 
+// ClientServerOptions is ClientServer with per-request options (WithServerURL, ...).
+func ClientServerOptions() gen.Options {
+	o := ClientServer()
+	o.Generator.Features.Enable["client/request/options"] = struct{}{}
+	return o
+}
+
 // Generated describes one regenerated package.
 type Generated struct {
 	Pkg   string
